@@ -236,16 +236,18 @@ PROPS['C12'] = {
              'lists the name / the number (kernel UAPI 6.1 headers, Go syscall, x/sys v0.48.0; one documented alias set on aarch64); audit ids of all 16 Info values against linux/audit.h; '
              'every alias and every table-less architecture name in lower and upper case; generated part (rapid): random ASCII case patterns of every alias, near-miss and arbitrary '
              'names; k fresh processes must print the same digest over every lookup; an entry is non-trivial iff at least one oracle source lists it; an alias spelling iff it is not '
-             'the canonical one; distinct by hash of the case JSON'),
+             'the canonical one; unit history: 1..6 uses of the public API per case (syscall extraction from generated listings that contain numbers the tables do not know, compilation of valid '
+             'and invalid policies incl. Dump, GetInfo, text conversions), after every step all five tables must equal the copy taken at process start and still be mutual inverses; distinct by hash of the case JSON'),
     'assumptions': ['oracle tables are from Linux 6.1 headers / Go 1.23.5 syscall / x/sys v0.48.0: entries newer than all three are only checked for the inverse laws',
                     'unicode strings that case-fold onto an alias are outside the statement'],
     'required_classes': {'all': ['table:x86_64', 'table:i386', 'table:arm', 'table:aarch64', 'table:x32', 'by-name', 'by-number',
-                                 'alias-in-non-canonical-case', 'unsupported-or-unknown', 'lookups-across-processes', 'alias:x32', 'alias:amd64', 'alias:arm64', 'alias:386', 'cross-table-law:x32-common', 'cross-table-law:unified']},
+                                 'alias-in-non-canonical-case', 'unsupported-or-unknown', 'lookups-across-processes', 'alias:x32', 'alias:amd64', 'alias:arm64', 'alias:386', 'cross-table-law:x32-common', 'cross-table-law:unified', 'history-with-syscall-numbers-unknown-to-the-table']},
     'units': [
         {'test': 'TestC12Tables', 'timeout': {'quick': 300, 'thorough': 300}},
         {'test': 'TestC12CrossTable', 'timeout': {'quick': 300, 'thorough': 300}},
         {'test': 'TestC12ArchMetadata', 'checks': {'quick': 5000, 'thorough': 2000000}, 'timeout': {'quick': 300, 'thorough': 1200}},
         {'test': 'TestC12Processes', 'helpers': ['digest'], 'timeout': {'quick': 300, 'thorough': 600}},
+        {'test': 'TestC12TablesStable', 'checks': {'quick': 3000, 'thorough': 400000}, 'shards': {'quick': 8, 'thorough': 16}, 'timeout': {'quick': 300, 'thorough': 1500}},
     ],
 }
 MANIFEST_TEXT['C12'] = {'claim': 'complete enumeration of all five tables (inverse laws, agreement with three independent vendored sources, audit ids) plus generated alias spellings and cross-process lookup digests',
